@@ -42,16 +42,17 @@ def behaviours(params: dict, simulate: int = 0, seed: int = 0, depth: int = 200,
     """Run TLC on WalkGen with Logging; returns (list of {'cfg', 'log'}, stats)."""
     d = tlc.scratch()
     name = f'WalkGenGen_{os.getpid()}_{params["N"]}_{params["MaxMut"]}_{simulate}'
-    cfgp = os.path.join(tlc.SPEC_DIR, name + '.cfg')
+    cfgp = os.path.join(d, name + '.cfg')   # scratch directory, removed by tlc.cleanup()
     with open(cfgp, 'w') as f:
         f.write(GEN_CFG.format(**params))
     try:
         extra = []
         if simulate:
             extra = ['-simulate', f'num={simulate}', '-depth', str(depth), '-seed', str(seed)]
-        r = tlc.run_model('WalkGen', name, workers=workers, timeout=timeout, extra=extra, heap='1g')
+        r = tlc.run_model('WalkGen', cfgp, workers=workers, timeout=timeout, extra=extra, heap='1g')
     finally:
-        os.unlink(cfgp)
+        if os.path.exists(cfgp):
+            os.unlink(cfgp)
     if r['violated']:
         raise tlc.TLCError(f'WalkGen generation run violated {r["violated"]}')
     out = []
